@@ -18,6 +18,8 @@ def main(run: Run):
     run.functions["amaranth_soc.wishbone.bus.Arbiter.elaborate"] = "per-configuration (bounded: N, features, granularities), all inputs/states/time"
     run.functions["amaranth_soc.wishbone.bus.Arbiter.add"] = "exercised (constructor refusals counted)"
     run_configs(run, __name__, cfgs)
+    from . import busadd_l1
+    busadd_l1.add_to(run, ['arbiter_add'])
     from . import validation
     validation.add_to(run, ['arbiter_add'])
     return run.finish(
